@@ -1,9 +1,47 @@
+def m(text, ref, note, tech):
+    return {"text": text, "design_ref": ref, "note": note, "technique": tech}
+
+S1NOTE = "Trusts the Go runtime and the reference model in harness/vh/s1.go; eviction victims depend on a random hash seed inside the cache, so the oracle reconciles reported removals instead of predicting them and a failing script may need several replays (the replay command retries)."
+S4NOTE = "Schedules are sampled by the Go runtime on up to 16 cores (GOMAXPROCS varied, optional yields/sleeps at verif hook points); they are not enumerated. The oracle is an invariant that holds under every legal schedule, so a report is never schedule-dependent noise, but absence of a report proves nothing about unexplored interleavings."
+
 META = {
-    "C01": {
-        "text": "Model-based property testing: rapid-generated operation scripts over all 12 node layouts are executed on one goroutine (inline executor, manual clock) and every return value plus the full key space is compared with a map-with-deadlines reference model after every step; automatic removals are reconciled through the deletion events. Held on all generated cases; no absence claim.",
-        "design_ref": "DESIGN.md §5, §6 C01",
-        "note": "Trusts the Go runtime; the reference model (harness/vh/s1.go) is the specification; eviction victims depend on a random hash seed inside the cache, so a failing script may need several replays.",
-        "technique": "stateful model-based property testing (rapid) against a reference map-with-deadlines model",
-    },
+    "C01": m("Model-based property testing: rapid-generated operation scripts over all 12 node layouts run on one goroutine (inline executor, manual clock); every return value and the full key space are compared with a map-with-deadlines reference model after every step; automatic removals are reconciled through the deletion events. Held on all generated cases; no absence claim.",
+             "DESIGN.md §5, §6 C01", S1NOTE, "stateful model-based property testing (rapid) against a reference map-with-deadlines model"),
+    "C02": m("Recorded concurrent histories of generated programs (2-8 goroutines, hot keys, evictions, table growth/shrink) are checked for per-key linearizability by porcupine against a register model with load tokens; compute callbacks are checked to run once. One listed known finding is recognised by re-checking with exactly its exemption.",
+             "DESIGN.md §6 C02, §7", S4NOTE + " Waiters of another call's load are unconstrained; a porcupine time-out is inconclusive.", "generated concurrent programs + recorded history + linearizability oracle (porcupine)"),
+    "C03": m("Model-based scripts restricted to expiring configurations with nanosecond TTLs (expired-but-unswept entries are the norm): every operation on an expired key must behave as on an absent key, iterators and save/load must skip it, and the key space is re-read after every step.",
+             "DESIGN.md §6 C03", S1NOTE, "stateful model-based property testing (rapid), visibility facet of the reference model"),
+    "C04": m("Scripts on bounded caches with inline and deferred executors (late maintenance is a script action); at every quiescence point the sum of weights present, Coldest() and WeightedSize() are compared with GetMaximum(); zero-weight entries must never be reported Overflow.",
+             "DESIGN.md §6 C04", S1NOTE + " The free-running and schedule-owned variants of this check are described in DESIGN.md; the registered check is the scripted one.", "stateful property testing (rapid) with a deferred executor; invariant at quiescence"),
+    "C05": m("Same scripts as C04 over all layouts; at quiescence the derived views are compared with each other and with the model, and a verif-tag audit walks the table, the three eviction deques and the timer wheel under the eviction lock.",
+             "DESIGN.md §6 C05", S1NOTE + " The audit (verif_export.go) only reads internal state.", "stateful property testing (rapid) + structural audit invariant at quiescence"),
+    "C06": m("Ledger oracle over scripts with inline and deferred executors on all 12 layouts: every value that stops being current must be delivered exactly once to OnAtomicDeletion (during the operation) and once to OnDeletion (by quiescence) with the model's cause; nothing else may be reported.",
+             "DESIGN.md §6 C06", S1NOTE, "stateful property testing (rapid); conservation / exactly-once ledger"),
+    "C07": m("Scripts with an inline executor; every reported Overflow/Expiration is judged at the moment of the event against the model's total weight, current maximum and deadlines (weights up to 2^32-1, maxima up to 2^40, SetMaximum changes).",
+             "DESIGN.md §6 C07", S1NOTE, "stateful property testing (rapid); per-event justification predicate against the model"),
+    "C10": m("Scripts dominated by Get/BulkGet with generated loader outcomes and result shapes; results, loader argument lists and contents afterwards are compared with the model.",
+             "DESIGN.md §6 C10", S1NOTE, "stateful model-based property testing (rapid) with generated loader outcomes"),
+    "C11": m("Refresh-enabled scripts with inline and deferred executors around the refresh deadline; loader invocation log, returned values, refresh times and RefreshResult channels are compared with the model; a second test checks the nil channel without a refresh policy.",
+             "DESIGN.md §6 C11", S1NOTE, "stateful model-based property testing (rapid) with a deferred executor and generated reload outcomes"),
+    "C12": m("Scripts over every calculator kind with durations up to MaxInt64 and clock origins up to 2^62; ExpiresAtNano/RefreshableAtNano of every live key are compared with op time + returned duration after every step, visibility must flip exactly at the deadline, overflowing sums must mean 'never'.",
+             "DESIGN.md §6 C12", S1NOTE, "stateful model-based property testing (rapid); exact deadline arithmetic in the model"),
+    "C13": m("Scripts with TTLs from nanoseconds to years and clock jumps up to 100 years; at every CleanUp each model entry that expired more than one tick ago (and was written more than one tick ago) must already have been reported and removed from EstimatedSize.",
+             "DESIGN.md §6 C13", S1NOTE + " The write-versus-sweep race of the statement (clock gate) is not in the registered check yet.", "stateful property testing (rapid); sweep-deadline obligation checked at every CleanUp"),
+    "C15": m("The key index is tested directly: a sequential model test against a Go map (growth, shrink, chains, early-stopped Range) and free-running single-writer-register programs with filler waves, varied GOMAXPROCS and delays at the resize hand-off; exact interval oracle for reads, exactly-once callbacks, counters, Range guarantees, Size at quiescence.",
+             "DESIGN.md §6 C15", S4NOTE, "model-based property testing + concurrent single-writer-register interval oracle"),
+    "C16": m("queue.MPSC is tested directly: sequential bounded-FIFO model over all capacity pairs, and free-running producers/consumer programs with per-producer sequence numbers, exactly-once delivery and a refusal-justification bound.",
+             "DESIGN.md §6 C16", S4NOTE, "model-based property testing + concurrent exactly-once/order oracle"),
+    "C17": m("lossy.Striped is tested directly: sequential 16-slot model, and free-running recorders with a draining consumer; delivered entries must be a duplicate-free subset of successful adds and equal to them after a quiescent drain, Len bounded.",
+             "DESIGN.md §6 C17", S4NOTE, "model-based property testing + concurrent multiset oracle"),
+    "C18": m("The sketch and the admission function are called through verif exports on generated multisets, capacities and hash seeds; lower/upper bounds per sampling period, exact halving on aging, and the admission formula with an injected random word.",
+             "DESIGN.md §6 C18", "The verif exports call the unexported functions unchanged; the sketch's own size counter is used to detect automatic aging steps.", "property-based testing of pure functions (rapid) against arithmetic oracles"),
+    "C19": m("A source cache built by a generated script is saved, the clock is moved by a generated offset and the stream is loaded into a fresh cache (same / smaller / larger maximum); loaded keys, values and deadlines are compared with the source as reported by the cache itself.",
+             "DESIGN.md §6 C19", S1NOTE, "round-trip property testing (rapid) with generated clock offsets"),
+    "C20": m("Scripts with a stats.Counter attached; after every action the snapshot must equal the harness tally (hits, misses, loads) and stay within the event-derived bounds for evictions; counters must be monotone.",
+             "DESIGN.md §6 C20", S1NOTE, "stateful property testing (rapid); exact tally comparison after every step"),
 }
-NOT_APPLICABLE = {}
+NOT_APPLICABLE = {
+    "C08": "check not built yet in this session (planned: synctest-bubble schedules with gated loaders, DESIGN.md §6 C08)",
+    "C09": "check not built yet in this session (planned: synctest-bubble write placements around a gated load, DESIGN.md §6 C09)",
+    "C14": "check not built yet in this session (planned: hook-point cooperative scheduler over the drain-status protocol, DESIGN.md §6 C14)",
+}
